@@ -30,6 +30,28 @@ class MachineryError(Exception):
     pass
 
 
+def strip_traces(o):
+    """cbmc --json-ui prints a full trace for every failed property, including the sentinel that must fail; a trace through large
+    arrays is hundreds of MB.  The pretty-printed array `"trace": [ ... ]` is cut out textually (closing bracket = same indentation)
+    before parsing; traces are only read in the dedicated --trace re-run of one property."""
+    out, pos = [], 0
+    while True:
+        i = o.find('"trace": [', pos)
+        if i < 0:
+            break
+        ls = o.rfind('\n', 0, i) + 1
+        indent = o[ls:i]
+        if indent.strip():
+            break
+        j = o.find('\n' + indent + ']', i)
+        if j < 0:
+            break
+        out.append(o[pos:i]); out.append('"trace": []')
+        pos = j + 1 + len(indent) + 1
+    out.append(o[pos:])
+    return ''.join(out)
+
+
 class Group:
     """one extraction + compilation context shared by several units"""
 
@@ -68,19 +90,57 @@ def _limits():
     resource.setrlimit(resource.RLIMIT_AS, (MEM_LIMIT, MEM_LIMIT))
 
 
-def run(cmd, cwd, timeout, log=None):
-    t0 = time.time()
+def _mem_available_kb():
     try:
-        p = subprocess.run(cmd, cwd=cwd, stdout=subprocess.PIPE, stderr=subprocess.STDOUT, timeout=timeout,
-                           preexec_fn=_limits)
-        out = p.stdout.decode('utf-8', 'replace')
-        rc = p.returncode
-    except subprocess.TimeoutExpired as e:
-        out = (e.stdout or b'').decode('utf-8', 'replace') + '\n[vf] TIMEOUT after %ds' % timeout
-        rc = -999
+        for l in open('/proc/meminfo'):
+            if l.startswith('MemAvailable:'):
+                return int(l.split()[1])
+    except Exception:
+        pass
+    return 1 << 40
+
+
+def _rss_kb(pid):
+    try:
+        for l in open('/proc/%d/status' % pid):
+            if l.startswith('VmRSS:'):
+                return int(l.split()[1])
+    except Exception:
+        pass
+    return 0
+
+
+def run(cmd, cwd, timeout, log=None):
+    """runs a tool; output goes through a scratch file (a cbmc JSON with traces can be hundreds of MB).  Memory guard: when the
+    machine has < 4 GB available and this child holds > 6 GB it is killed (rc -998, reported as a machinery problem, never a violation)."""
+    import tempfile
+    t0 = time.time()
+    rc = None
+    with tempfile.TemporaryFile(dir=cwd) as tf:
+        p = subprocess.Popen(cmd, cwd=cwd, stdout=tf, stderr=subprocess.STDOUT, preexec_fn=_limits)
+        tick = 0
+        while True:
+            try:
+                rc = p.wait(timeout=1.0)
+                break
+            except subprocess.TimeoutExpired:
+                pass
+            tick += 1
+            if timeout is not None and time.time() - t0 > timeout:
+                p.kill(); p.wait(); rc = -999
+                break
+            if tick % 3 == 0 and _mem_available_kb() < 4 * 1024 * 1024 and _rss_kb(p.pid) > 6 * 1024 * 1024:
+                p.kill(); p.wait(); rc = -998
+                break
+        tf.seek(0)
+        out = tf.read().decode('utf-8', 'replace')
+    if rc == -999:
+        out += '\n[vf] TIMEOUT after %ds' % timeout
+    if rc == -998:
+        out += '\n[vf] killed by the memory guard (machine almost out of memory)'
     if log:
         with open(log, 'a') as f:
-            f.write('$ ' + ' '.join(cmd) + '\n' + out + '\n')
+            f.write('$ ' + ' '.join(cmd) + '\n' + (out if len(out) < 200000 else out[:20000] + '\n[... %d bytes cut ...]\n' % (len(out) - 120000) + out[-100000:]) + '\n')
     return rc, out, time.time() - t0
 
 
@@ -216,6 +276,12 @@ class Runner:
             res['status'] = 'timeout'
             res['detail'] = 'cbmc timeout after %ds' % tmo
             return res
+        if rc == -998:
+            res['status'] = 'error'
+            res['detail'] = 'cbmc killed by the memory guard (machine almost out of memory)'
+            return res
+        if trace_property is None:
+            o = strip_traces(o)
         try:
             msgs = json.loads(o)
         except Exception:
